@@ -143,7 +143,7 @@ def pt_plan(mix, n_quick, n_thorough, rule, design_quick, design_thorough, kinds
                              "vtimeout": 3600})
         runs += stim_runs(tier, seed, salt)
         return {"design": design, "runs": runs, "trace_module": "Trace_PT", "level": "model_checking",
-                "rule": rule + "; PLUS specification -> implementation replay: transitions of the MC_PT state graph (every explored (state, call) pair, printed by TLC) are replayed on the three mapper kinds with the pre-state injected into simulated physical memory (quick: every 60th transition, thorough: all 74 579 per configuration)",
+                "rule": rule + "; PLUS specification -> implementation replay: transitions of the MC_PT state graph (every explored (state, call) pair, printed by TLC) are replayed on the three mapper kinds with the pre-state injected into simulated physical memory (quick: every 60th transition, thorough: all 118 201 per configuration)",
                 "assumptions": PT_ASSUME, "replay_lines": pt_replay_lines}
     return mk
 
